@@ -501,6 +501,8 @@ func runC06(c *config) {
 	c06Const(c, newRng(c.seed, "c06const"))
 	// getelementptr constant expressions with vector operands in every spelling (c06gep.go)
 	c06ConstGEP(c, newRng(c.seed, "c06gep"))
+	// value-producing terminators and exception-handling pads, from the definition and from its users (c06eh.go)
+	c06EH(c, newRng(c.seed, "c06eh"))
 }
 
 func c06One(c *config, u *universe, cs c06Case, bodies string, sample bool) {
